@@ -9,6 +9,8 @@ import (
 	"encoding/json"
 	"flag"
 	"fmt"
+	"io"
+	"log"
 	"os"
 	"path/filepath"
 	"sort"
@@ -28,7 +30,8 @@ type Ctx struct {
 	Arg   string // optional suite argument (e.g. replay file)
 
 	OpTimeout time.Duration
-	Child     bool // running as a resource-limited child for one op
+	Flags     map[string]bool // from -arg "a,b"
+	Child     bool            // running as a resource-limited child for one op
 
 	suite    *Suite
 	caseN    int
@@ -61,6 +64,9 @@ func (c *Ctx) Count(key string) { c.Stats.Counters[key]++ }
 func (c *Ctx) CountN(key string, n int) {
 	c.Stats.Counters[key] += n
 }
+
+// Flag reports whether the suite argument contains the given flag.
+func (c *Ctx) Flag(name string) bool { return c != nil && c.Flags[name] }
 
 // Runner is one fresh instance of the implementation under test; Do executes one
 // operation line and returns the canonical observation line.
@@ -239,6 +245,9 @@ func main() {
 		fmt.Fprintf(os.Stderr, "usage: harness -out DIR [-seed N] [-tier quick|thorough] <suite>\nsuites: %s\n", strings.Join(names, " "))
 		os.Exit(2)
 	}
+	if os.Getenv("VERIF_LOG") == "" {
+		log.SetOutput(io.Discard) // litefs logs through the standard logger
+	}
 	name := flag.Arg(0)
 	su, ok := suites[name]
 	if !ok {
@@ -274,6 +283,12 @@ func main() {
 		ops: bufio.NewWriterSize(opsF, 1<<20), impl: bufio.NewWriterSize(implF, 1<<20),
 		Stats:    &Stats{Suite: name, Counters: map[string]int{}},
 		caseKeys: map[string]bool{}, suite: su, OpTimeout: 20 * time.Second,
+	}
+	c.Flags = map[string]bool{}
+	for _, a := range strings.Split(*arg, ",") {
+		if a != "" {
+			c.Flags[a] = true
+		}
 	}
 	var runErr error
 	if *replay != "" {
